@@ -37,6 +37,7 @@ neighbours (parameter +-1 and sibling families give a different codeword); disti
     assumptions: &["identifier table written from the constant names (dispatch::id_table)", "reference codecs; D5/D6 value and parameter domains"],
     run,
     replay,
+    from_bytes: None,
 };
 
 fn neighbours(c: Code) -> Vec<Code> {
@@ -97,7 +98,15 @@ fn documented(code: Code) -> bool {
 pub fn check_case(c: &Case, _env: &Env) -> CheckResult {
     let e = c.e;
     let pre = c.pre as usize;
-    let id = c.id.as_ref().map(|x| x.1);
+    // the identifier is resolved by the constant's *name* on the tree under test (the number stored in the
+    // case is informational: a saved case must stay meaningful if the numbering changes)
+    let id = match c.id.as_ref() {
+        Some((name, _)) => match id_table().into_iter().find(|t| format!("{}{}", t.0, t.2.param()) == *name) {
+            Some(t) => Some(t.1),
+            None => fail!("harness/c10_unknown_constant", "unknown constant name {}", name),
+        },
+        None => None,
+    };
     let fam = c.code.family();
     let how = format!("{:?}", c.how);
     let mut o = Outcome::new();
